@@ -26,7 +26,7 @@ RULE = ("generic part: (non-nullable pattern tree, sequence) pairs, trees exhaus
 ASSUMPTIONS = ["polynomial reference matcher correct (cross-checked against the derivative matcher here and in C13, and against re in C13)",
                "stateless token predicates (Name, Keyword, Symbol, Operator, TokenValue) are trusted as token classifiers; "
                "Balanced is NOT trusted: the shape reference tracks depth itself"]
-BOUNDS = {"quick": dict(tree=5, seq=5, rand=4000, rsize=12, rlen=12, hcap=60000, hrand=8000, hrlen=14, n=32),
+BOUNDS = {"quick": dict(tree=5, seq=5, rand=24000, rsize=12, rlen=12, hcap=60000, hrand=8000, hrlen=14, n=32),
           "thorough": dict(tree=6, seq=6, rand=200000, rsize=14, rlen=16, hcap=3000000, hrand=300000, hrlen=18, n=64)}
 EXHAUSTIVE = {"quick": True, "thorough": True}
 EXHAUSTIVE_SCOPE = {t: f"non-nullable trees <= {b['tree']} nodes over {{a,b,c}} x sequences <= {b['seq']}; header shapes x "
@@ -433,8 +433,10 @@ def run(shard, ctx):
         t = R.random_tree(rng, rng.randint(5, shard["rsize"]), ALPHABET)
         if R.p_member(t, ()):
             continue
-        for _ in range(3):
-            s = tuple(rng.choice(ALPHABET) for _ in range(rng.randint(1, shard["rlen"])))
+        cand = [tuple(rng.choice(ALPHABET) for _ in range(rng.randint(1, shard["rlen"]))) for _ in range(3)]
+        if R.size(t) >= 7:
+            cand += [s for s in seqs if 1 <= len(s) <= 3][:: 3]  # short inputs expose faults in the automaton's structure
+        for s in cand:
             ctx.count("cases.random")
             if check_generic(ctx, matcher, t, s):
                 ctx.distinct(["rand", show(t), "".join(s)])
